@@ -654,6 +654,16 @@ def read_type_params(state: State, data: ReadBuffer) -> list[TypeParam]:
         expect_tag(data, LIST_GEN)
         n_values = read_int_bare(data)
         values = [read_type(state, data) for _ in range(n_values)]
+        if n_values == 1:
+            # Same as in fastparse.py: T: (int,) is not a valid value restriction.
+            state.add_error(
+                message_registry.TYPE_VAR_TOO_FEW_CONSTRAINED_TYPES.value,
+                values[0].line,
+                values[0].column,
+                blocker=False,
+                code="misc",
+            )
+            values = []
 
         has_default = read_bool(data)
         if has_default:
@@ -793,6 +803,16 @@ def read_type_alias_stmt(state: State, data: ReadBuffer) -> TypeAliasStmt:
             expect_tag(data, LIST_GEN)
             n_values = read_int_bare(data)
             values = [read_type(state, data) for _ in range(n_values)]
+            if n_values == 1:
+                # Same as in read_type_params().
+                state.add_error(
+                    message_registry.TYPE_VAR_TOO_FEW_CONSTRAINED_TYPES.value,
+                    values[0].line,
+                    values[0].column,
+                    blocker=False,
+                    code="misc",
+                )
+                values = []
 
             has_default = read_bool(data)
             if has_default:
